@@ -45,20 +45,40 @@ def finish(prop: str, tier: str, coverage: dict, violations: list, t0: float,
     VIOLATION / KNOWN-FINDING lines, return the exit code."""
     os.makedirs(EVIDENCE_DIR, exist_ok=True)
     known = load_known()
-    known_sigs = {f["signature"]: f for f in known.get("findings", []) if f.get("property") == prop}
+    import re
+    entries = [f for f in known.get("findings", []) if f.get("property") == prop]
+    known_sigs = {}
+
+    def lookup(sig):
+        for f in entries:
+            if f.get("signature") == sig:
+                return f
+            rx = f.get("signature_regex")
+            if rx and re.fullmatch(rx, sig):
+                return f
+        return None
+
     groups = group_violations(violations)
     new = []
     met_known = []
     for sig in sorted(groups):
         v, n = groups[sig]
-        if sig in known_sigs:
+        f = lookup(sig)
+        if f is not None:
+            known_sigs[sig] = f
             met_known.append((sig, v, n))
         else:
             new.append((sig, v, n))
     exit_code = 0
     out_lines = []
+    by_entry = {}
     for sig, v, n in met_known:
-        out_lines.append(f"KNOWN-FINDING: property={prop} {known_sigs[sig].get('what', sig)} [{sig}] ({n} occurrences)")
+        e = known_sigs[sig]
+        by_entry.setdefault(e.get("id", sig), [e, 0, []])
+        by_entry[e.get("id", sig)][1] += n
+        by_entry[e.get("id", sig)][2].append(sig)
+    for eid, (e, n, sigs) in sorted(by_entry.items()):
+        out_lines.append(f"KNOWN-FINDING: property={prop} {eid}: {e.get('what', '')} ({n} occurrences, {len(sigs)} signature(s))")
     replay_paths = []
     for sig, v, n in new:
         d = os.path.join(REPLAY_DIR, prop)
